@@ -1,6 +1,7 @@
 package regexp2
 
 import (
+	"math"
 	"sync"
 	"sync/atomic"
 	"time"
@@ -44,6 +45,10 @@ func (t fasttime) reached() bool {
 
 // makeDeadline returns a time that is approximately time.Now().Add(d)
 func makeDeadline(d time.Duration) fasttime {
+	// a timeout just below "forever" must not overflow when the clock period is added
+	if d > math.MaxInt64-clockPeriod {
+		d = math.MaxInt64 - clockPeriod
+	}
 	// Read clockEnd before current: a stopped clock leaves current stale, and another
 	// goroutine may refresh current and then extend clockEnd at any moment. Seeing the
 	// extended clockEnd therefore guarantees that the current read below is fresh, while
